@@ -124,11 +124,39 @@ static void cmd_read (void)
 
 /* readcheck <LP|MPS> <hexpath>: read; if a problem comes back it must be internally consistent: it can be
  * dumped, written in both formats, solved exactly and freed (C11).  Meant to run under `fork`. */
-static void cmd_readcheck (void)
+/* readcheck: through mpq_QSread_prob; readcheckc: through a line reader with an error collector (QSget_prob), every collected error is
+ * looked at (description, source line) and released */
+static void cmd_readcheck_impl (int collector)
 {
 	const char *ft = tok ();
 	char *path = unhex (tok ());
-	mpq_QSdata *p = mpq_QSread_prob (path, ft);
+	mpq_QSdata *p = 0;
+	if (!collector) p = mpq_QSread_prob (path, ft);
+	else
+	{
+		FILE *f = fopen (path, "r");
+		if (f)
+		{
+			mpq_QSerror_memory mem = mpq_QSerror_memory_create (1);
+			mpq_QSerror_collector col = mpq_QSerror_memory_collector_new (mem);
+			mpq_QSline_reader rd = mpq_QSline_reader_new ((void *) fgets, f);
+			mpq_QSformat_error e;
+			long tot = 0;
+			mpq_QSline_reader_set_error_collector (rd, col);
+			p = mpq_QSget_prob (rd, "viacollector", ft);
+			printf ("nerr %d\n", mpq_QSerror_memory_get_nerrors (mem));
+			for (e = mpq_QSerror_memory_get_last_error (mem); e; e = mpq_QSerror_memory_get_prev_error (e))
+			{
+				const char *d = mpq_QSerror_get_desc (e), *l = mpq_QSerror_get_line (e);
+				tot += (long) (d ? strlen (d) : 0) + (long) (l ? strlen (l) : 0) + mpq_QSerror_get_pos (e) + mpq_QSerror_get_line_number (e) + mpq_QSerror_get_type (e);
+			}
+			printf ("errbytes %s\n", tot >= 0 ? "ok" : "neg");
+			mpq_QSline_reader_free (rd);
+			mpq_QSerror_collector_free (col);
+			mpq_QSerror_memory_free (mem);
+			fclose (f);
+		}
+	}
 	printf ("read %s\n", p ? "ok" : "fail");
 	if (p)
 	{
@@ -152,6 +180,9 @@ static void cmd_readcheck (void)
 	}
 	free (path);
 }
+
+static void cmd_readcheck (void) { cmd_readcheck_impl (0); }
+static void cmd_readcheckc (void) { cmd_readcheck_impl (1); }
 
 static void cmd_write (void)
 {
@@ -468,6 +499,7 @@ int qsx_more_commands (const char *c)
 	else if (!strcmp (c, "read")) cmd_read ();
 	else if (!strcmp (c, "write")) cmd_write ();
 	else if (!strcmp (c, "readcheck")) cmd_readcheck ();
+	else if (!strcmp (c, "readcheckc")) cmd_readcheckc ();
 	else if (!strcmp (c, "writebasis")) cmd_writebasis ();
 	else if (!strcmp (c, "readbasis")) cmd_readbasis ();
 	else if (!strcmp (c, "loadbasis")) cmd_loadbasis ();
